@@ -585,7 +585,7 @@ func (r *Runner) cmd(ctx context.Context, cm syntax.Command) {
 			stop := r.exit.ok() == cm.Until
 			r.exit.clear()
 			if stop {
-				if !r.exit.returning && !r.exit.exiting {
+				if !r.exit.returning && !r.exit.exiting && !r.exit.fatalExit {
 					r.exit.code = bodyCode
 				}
 				break
